@@ -1039,7 +1039,19 @@ fn resolve_text_macro_usage<T: AsRef<Path>, U: AsRef<Path>>(
         for arg in args.contents() {
             if let Some(arg) = arg {
                 let (ref arg,) = arg.nodes;
-                let arg = arg.str(&s).trim_end();
+                let arg_str = arg.str(&s);
+                let arg = arg_str.trim_end();
+                // A one-line comment at the end of an actual argument keeps the newline that ends it:
+                // the text that follows the formal in the macro body is not part of the comment.
+                let arg = match arg.rsplit('\n').next() {
+                    Some(last_line) if last_line.contains("//") => {
+                        match arg_str[arg.len()..].find('\n') {
+                            Some(i) => &arg_str[..arg.len() + i + 1],
+                            None => arg,
+                        }
+                    }
+                    _ => arg,
+                };
                 actual_args.push(Some(arg));
             } else {
                 actual_args.push(None);
